@@ -73,7 +73,7 @@ PROPS = {
         "verus": [("prettydec", ["from_str"]),
                   ("bookkeep", ["PriceRepositoryBuilder::insert_price", "callsite:insert_impl division", "check_balance", "posting_price_event", "add_transaction", "process_posting"]),
                   ("amounts", None), ("balance", None), ("intern", ["InternStore::insert_canonical_impl", "InternStore::insert_alias_impl"])],
-        "kani": {"quick": ["parse_error_new_bounded", "compute_line_number_bounded", "clip_complete"], "thorough": ["display_roundtrip_bounded", "parsed_context_line_and_slice"]},
+        "kani": {"quick": ["parse_error_new_bounded", "compute_line_number_bounded", "clip_complete", "try_find_char_no_panic"], "thorough": ["display_roundtrip_bounded", "parsed_context_line_and_slice"]},
         "family": ("c06", {"quick": ["quick"], "thorough": ["thorough"]}),
         "technique": "contract-based deductive verification (Verus safety/termination obligations of the contracted kernels) + Kani with unwinding assertions on the real crate for the loops that live in std",
         "explanation": "PARTIAL.  A deductive verifier proves absence of panics and termination by default; C06 collects those obligations for the kernels that sit on the hazards the property names: "
@@ -83,8 +83,8 @@ PROPS = {
                        "no underflow (complete), Display for PrettyDecimal does not panic (i16 mantissa, scale <= 2).  NOT decided: totality of the winnow parser on arbitrary text, include cycles, the CLI main.",
         "units_doc": ["see C01, C02, C03, C07, C12 units", "core/src/parse/error.rs: ParseError::new, compute_line_number (Kani)", "core/src/parse/adaptor.rs: clip (Kani)", "core/src/syntax/pretty_decimal.rs: Display (Kani, bounded)"],
         "assumptions": [L0_DECIMAL, L0_HANDLES, L0_STD, L1_AMOUNT, L1_BOOK, STUBS, "overflow panics of Decimal + - * are outside C06 by its own 'representable range' clause",
-                        "Kani: ASCII text <= 6 bytes over {LF, CR, space, a, ;}"],
-        "bounded": ["parse_error_new_bounded (text <= 6 bytes)", "compute_line_number_bounded (text <= 6 bytes)", "display_roundtrip_bounded (i16 mantissa, scale <= 2)"],
+                        "Kani: text <= 4 characters over {LF, CR, a, ;, あ (3 bytes)}"],
+        "bounded": ["parse_error_new_bounded (text <= 4 characters incl. a 3-byte one)", "compute_line_number_bounded (same)", "try_find_char_no_panic (text <= 3 characters)", "display_roundtrip_bounded (i16 mantissa, scale <= 2)"],
         "not_decided": ["winnow parser totality on arbitrary text", "self-including files (load_impl recursion has no measure)", "cli main error mapping"],
         "unwind_is_violation": ["parse_error_new_bounded"],
     },
@@ -95,11 +95,11 @@ PROPS = {
         "technique": "Kani on the real okane-core crate: harness modules injected next to parse/error.rs and parse/adaptor.rs; loop-free harnesses over the full usize domain are complete proofs, string harnesses are bounded",
         "explanation": "PARTIAL / BOUNDED.  On the real compiled code: compute_line_number(s, pos) = 1 + number of LF before pos; ParsedContext::compute_line_start is that at the entry's span start and as_str is the "
                        "entry's slice; ParseError::new reports the first line of the failed entry, an error span starting at the failure offset and ending inside the remaining text, for every entry start and failure "
-                       "offset (ASCII text <= 6 bytes, CR/LF included) — bounded; clip / ParsedSpan::resolve map a tracked span inside the entry to entry-relative offsets without underflow — complete (loop-free, full usize).",
+                       "offset (text <= 4 characters over {LF, CR, a, ;, a 3-byte character}) — bounded; clip / ParsedSpan::resolve map a tracked span inside the entry to entry-relative offsets without underflow — complete (loop-free, full usize).",
         "units_doc": ["core/src/parse/error.rs: compute_line_number, ParseError::new", "core/src/parse/adaptor.rs: clip, ParsedSpan::resolve, ParsedContext::{compute_line_start, as_str}"],
-        "assumptions": ["Kani 0.68 / CBMC 6.11 model of std", "text restricted to ASCII bytes {LF, CR, space, a, ;} of length <= 6 (multi-byte text is not covered; LF never occurs inside a multi-byte sequence)",
+        "assumptions": ["Kani 0.68 / CBMC 6.11 model of std", "text restricted to <= 4 characters over {LF, CR, a, ;, あ (3 bytes)}; the ParsedContext harness uses ASCII text <= 6 bytes",
                         "TrackedSpan constructor injected under cfg(kani) (the real one is cfg(test))"],
-        "bounded": ["text <= 6 bytes for the three string harnesses"],
+        "bounded": ["text <= 4 characters (<= 12 bytes) for compute_line_number / ParseError::new, ASCII <= 6 bytes for ParsedContext"],
         "not_decided": ["which file path reaches ErrorContext::new (load_impl, C11)", "rendering by annotate_snippets", "that spans produced by winnow lie inside their entry"],
         "unwind_is_violation": ["parse_error_new_bounded"],
     },
